@@ -174,6 +174,8 @@ func vfC13Refcount(e *vfEnv, r *vfResult, idx int) { //nolint:cyclop
 }
 
 // vfC13RefcountSequential: exact, single goroutine: after closing k of n handles the underlying is open iff k < n, siblings read and write.
+var vfC13PendingStuck atomic.Int32
+
 func vfC13RefcountSequential(e *vfEnv, r *vfResult, idx int) {
 	rng := e.rng(idx, "refseq")
 	sock := newVfMuxSock("10.0.0.9:7000")
@@ -205,8 +207,37 @@ func vfC13RefcountSequential(e *vfEnv, r *vfResult, idx int) {
 	for i := range hs {
 		open[i] = true
 	}
+	// the handle closed first has a read pending, with or without a (far) read deadline armed:
+	// its own Close must fail that read promptly although siblings keep the connection open
+	first := order[0]
+	withDeadline := rng.IntN(2) == 0
+	if withDeadline {
+		_ = hs[first].SetReadDeadline(time.Now().Add(time.Hour))
+	}
+	pending := make(chan error, 1)
+	probe := vfC13PendingStuck.Load() < 2 // a tree that breaks this costs 10 s per history: two witnesses are enough
+	if probe {
+		go func() { _, _, err := hs[first].ReadFrom(make([]byte, 100)); pending <- err }()
+		time.Sleep(100 * time.Microsecond)
+	}
 	for k, i := range order {
 		_ = hs[i].Close()
+		if k == 0 && n > 1 && probe {
+			select {
+			case err := <-pending:
+				if err == nil {
+					r.violation("closed-handle-read-error:udpmux", "the pending read of a closed handle returned data", map[string]any{"idx": idx})
+				}
+			case <-time.After(10 * time.Second):
+				vfC13PendingStuck.Add(1)
+				r.violation("closed-handle-read-still-pending", fmt.Sprintf("history %d: 10 s after Close of a handle its own pending read (read deadline armed: %v) is still blocked while %d sibling(s) are open", idx, withDeadline, n-1), map[string]any{"idx": idx, "handles": n, "read_deadline_armed": withDeadline})
+				for _, h := range hs {
+					_ = h.Close()
+				}
+
+				return
+			}
+		}
 		if rng.IntN(3) == 0 {
 			_ = hs[i].Close() // double close of one handle must not release a second reference
 		}
@@ -246,7 +277,7 @@ func vfC13RefcountSequential(e *vfEnv, r *vfResult, idx int) {
 			break
 		}
 	}
-	r.distinct(fmt.Sprintf("refseq/n%d", n))
+	r.distinct(fmt.Sprintf("refseq/n%d/deadline=%v", n, withDeadline))
 }
 
 // vfC13Abort: the abort protocol under stress.
@@ -384,6 +415,86 @@ func vfC13Abort(e *vfEnv, r *vfResult, idx int) { //nolint:cyclop,maintidx
 	}
 }
 
+// vfC13StaleAbort (directed schedule, hook H2): a context-cancelled write whose abort is delayed until the write
+// has already returned must not interrupt a later write of another user.
+func vfC13StaleAbort(e *vfEnv, r *vfResult, idx int) {
+	sock := newVfMuxSock("10.9.9.9:7000")
+	mux := NewUDPMuxDefault(UDPMuxParams{UDPConn: sock, Logger: vfQuietLogger().NewLogger("ice")})
+	defer mux.Close() //nolint:errcheck
+	hA, err1 := mux.GetConn("uA", sock.local)
+	hB, err2 := mux.GetConn("uB", sock.local)
+	if err1 != nil || err2 != nil {
+		r.inconclusive(1)
+
+		return
+	}
+	_ = hA
+	release := make(chan struct{})
+	parked := &atomic.Int32{}
+	pol := newVfYieldPolicy(e.rng(idx, "stale"), map[string]int{"*": 0}, 1)
+	pol.park = map[string]chan struct{}{"udpmux.ctxAbort.beforeAbort": release}
+	pol.parked = map[string]*atomic.Int32{"udpmux.ctxAbort.beforeAbort": parked}
+	vfSetYield(pol)
+	defer vfSetYield(nil)
+	peer := &net.UDPAddr{IP: net.IPv4(20, 0, 0, 1), Port: 5000}
+	sock.setBlocking(true)
+	ctx, cancel := context.WithCancel(context.Background())
+	wDone := make(chan error, 1)
+	go func() { _, err := mux.writeToContext(ctx, []byte("w"), peer); wDone <- err }()
+	for dl := time.Now().Add(2 * time.Second); sock.blockedW.Load() == 0 && time.Now().Before(dl); time.Sleep(20 * time.Microsecond) {
+	}
+	cancel() // the abort goroutine passes its "still in flight" check and parks at the hook
+	for dl := time.Now().Add(2 * time.Second); parked.Load() == 0 && time.Now().Before(dl); time.Sleep(20 * time.Microsecond) {
+	}
+	if parked.Load() == 0 {
+		close(release)
+		sock.setBlocking(false)
+		<-wDone
+		r.inconclusive(1)
+		r.note("stale-abort schedule: hook udpmux.ctxAbort.beforeAbort not reached")
+
+		return
+	}
+	sock.setBlocking(false) // the first user's socket write completes by itself
+	released := false
+	select {
+	case <-wDone:
+	case <-time.After(20 * time.Millisecond):
+		// the write does not return while its abort is pending (an implementation may make the two atomic): let the abort run
+		close(release)
+		released = true
+		select {
+		case <-wDone:
+		case <-time.After(5 * time.Second):
+			r.inconclusive(1)
+
+			return
+		}
+	}
+	// a later write of ANOTHER user is in flight when the delayed abort finally runs
+	sock.setBlocking(true)
+	pDone := make(chan error, 1)
+	go func() { _, err := hB.WriteTo([]byte("later"), peer); pDone <- err }()
+	for dl := time.Now().Add(2 * time.Second); sock.blockedW.Load() == 0 && time.Now().Before(dl); time.Sleep(20 * time.Microsecond) {
+	}
+	if !released {
+		close(release)
+	}
+	time.Sleep(300 * time.Microsecond)
+	sock.setBlocking(false)
+	r.eval(1)
+	r.distinct(fmt.Sprintf("stale-abort/write-waits-for-abort=%v", released))
+	select {
+	case err := <-pDone:
+		if err != nil {
+			r.violation("abort-of-finished-write-hits-later-writer", fmt.Sprintf("user B's write, started after user A's cancelled write had already returned, failed with %v: A's delayed abort armed the shared write deadline", err),
+				map[string]any{"idx": idx, "deadline_log_len": len(sock.wdl)})
+		}
+	case <-time.After(10 * time.Second):
+		r.violation("abort-socket-blocked", "the later write blocked", map[string]any{"idx": idx})
+	}
+}
+
 // vfC13TCPMux: handles of one ufrag of the TCP mux share one tcpPacketConn, closed with the last handle.
 func vfC13TCPMux(e *vfEnv, r *vfResult, idx int) {
 	rng := e.rng(idx, "tcprefs")
@@ -448,6 +559,9 @@ func TestVerifC13(t *testing.T) {
 		k := e.n(300, 10000)
 		for i := 0; i < k; i++ {
 			vfC13TCPMux(e, r, i)
+		}
+		for i := 0; i < e.n(40, 2000); i++ {
+			vfC13StaleAbort(e, r, i)
 		}
 	})
 }
